@@ -6,7 +6,8 @@ ID = "C11"
 CASE_REPLAY = True
 MODULES = ["Shuttle.Props.C11"]
 RULE = ("every path returned by TraceInterpreter.run_trace for seeded random tweezer programs (as C01) and its "
-        "reverse_path(...) image, plus the paths of the library tweezer kernels; the Lean predicate WF is evaluated "
+        "reverse_path(...) image, the path the same call returns on a long-lived instance that has traced every earlier "
+        "kernel (failing ones included), plus the paths of the library tweezer kernels; the Lean predicate WF is evaluated "
         "on the real path. non-trivial = path with at least one switch; distinct = distinct canonical paths.")
 TRUSTED = ["modelled, not verified: kirin interpreter loop, bloqade-geometry Grid"]
 ASSUMPTIONS = ["coordinates are dyadic rationals for which binary64 arithmetic is exact"]
@@ -26,6 +27,9 @@ def run(ctx):
             cases += T.trace_program(ctx, spec, traps, c["kernels"], [c["args"]])
     items = []   # (case dict, what, canonical path)
     for c in cases:
+        # what the same kernel returns on one long-lived instance that has traced all earlier kernels, failing ones included
+        if c.shared_impl is not None and c.shared_impl.startswith("ok "):
+            items.append((c, "traced-on-a-used-instance", c.shared_impl[3:]))
         if c.path is None:
             ctx.count("trace_errors")
             continue
